@@ -66,6 +66,15 @@ def sanitize_variable_names(
             else:
                 next(expr_parts)
                 new_name = sanitize_variable_name(variable_name, env, template=template)
+                if aliases.get(new_name, variable_name) != variable_name:
+                    # Different names can sanitize to the same alias (e.g. `a b`
+                    # and `a+b`); keep them distinct.
+                    base_name, suffix = new_name, 1
+                    while aliases.get(new_name, variable_name) != variable_name:
+                        suffix += 1
+                        new_name = f"{base_name}_{suffix}"
+                    if variable_name in env:
+                        env[new_name] = env[variable_name]
                 aliases[new_name] = variable_name
                 sanitized_expr.append(f" {new_name} ")
         else:
